@@ -116,4 +116,7 @@ def extra_checks(tier="quick", seed=0):
     # only the clause that belongs to C09 (state left behind in the cached package stores); the other writer clauses are C14's
     same_run = [dict(r, id=r["id"].replace("bounded:writer chain keeps", "bounded:same-run reuse of the package stores:"))
                 for r in run_writers(tier, seed) if r["status"] == "discharged" or "later codemod of the same run" in r["id"]]
-    return [run_batch_vs_single(tier, seed)] + same_run
+    import codemodder
+    from pyvc import framescan
+    src = os.path.dirname(os.path.dirname(os.path.abspath(codemodder.__file__)))
+    return [run_batch_vs_single(tier, seed)] + same_run + framescan.shared_state_obligations(src)
